@@ -24,6 +24,10 @@ type DocxOptions struct {
 	// names the body paragraph style (the same style later plain paragraphs
 	// use) — direct formatting on top of a non-heading style.
 	OutlineKeepsBodyStyle bool
+	// NumIDZero: every third plain body paragraph carries <w:numPr> with w:numId 0
+	// (and some w:ilvl) - the spelling ECMA-376 17.9.18 defines for "numbering
+	// removed from this paragraph": it is a plain paragraph
+	NumIDZero bool
 	// NSPrefix: namespace prefix the main document part binds to the
 	// WordprocessingML namespace instead of the customary "w" ("" = "w";
 	// any NCName is equally valid XML: Namespaces in XML 1.0 §3)
@@ -87,7 +91,11 @@ func WriteDocx(d *logical.Doc, o DocxOptions) []byte {
 			if d.HasStyles {
 				style = o.BodyStyle
 			}
-			px := w.para(b.Para, pPr(style, 0, -1, -1))
+			ppr := pPr(style, 0, -1, -1)
+			if o.NumIDZero && i%3 == 1 {
+				ppr = pPr(style, -1, i%4, -1)
+			}
+			px := w.para(b.Para, ppr)
 			if b.Wrap == "container" && !o.Neutral["blocksdt"] {
 				// block-level content control (CT_SdtBlock) around the paragraph
 				w.ids++
@@ -196,6 +204,8 @@ func pPr(style string, numID, ilvl, outl int) string {
 	}
 	if numID > 0 {
 		fmt.Fprintf(&sb, `<w:numPr><w:ilvl w:val="%d"/><w:numId w:val="%d"/></w:numPr>`, ilvl, numID)
+	} else if numID < 0 {
+		fmt.Fprintf(&sb, `<w:numPr><w:ilvl w:val="%d"/><w:numId w:val="0"/></w:numPr>`, ilvl)
 	}
 	if outl >= 0 {
 		fmt.Fprintf(&sb, `<w:outlineLvl w:val="%d"/>`, outl)
